@@ -158,7 +158,8 @@ def run_variant(unit, variant, gen_c, workdir, prelude, solver='kissat', extra_d
     cmds.append(' '.join(cmd))
     rc, out, _ = sh(cmd, 120, mem, workdir)
     if rc != 0:
-        raise Undecided('extraction-broke', 'goto-cc failed (the extracted text no longer compiles as C):\n' + out[-3000:])
+        m = re.search(r'#error extraction broke: (.*)', out)
+        raise Undecided('extraction-broke', m.group(1) if m else 'goto-cc failed (the extracted text no longer compiles as C):\n' + out[-3000:])
     if meta.get('mode', 'dfcc') == 'dfcc':
         cmd = ['goto-instrument', '--dfcc', entry, '--enforce-contract', variant.get('enforce', meta.get('enforce'))]
         for r in meta.get('replace', []) + variant.get('replace', []):
